@@ -66,11 +66,13 @@ Fixpoint is_infix (a b : str) : bool :=
   is_prefix a b || match b with [] => false | _ :: b' => is_infix a b' end.
 
 (* ---------------------------------------------------------------- elements *)
-Record elem := mkE { eidx : nat; efeat : bool; edata : str; elocs : list (Z * Z); emeta : list (str * pv) }.
+(* elocs: the (start, stop) pairs in the order LocationTuple stores them; eminus: all locations on the '-' strand *)
+Record elem := mkE { eidx : nat; efeat : bool; edata : str; elocs : list (Z * Z); emeta : list (str * pv); eminus : bool }.
 (* short constructors for the case files *)
 Definition kv (k : str) (v : pv) : str * pv := (k, v).
-Definition Ft (i : nat) (locs : list (Z * Z)) (m : list (str * pv)) : elem := mkE i true [] locs m.
-Definition Sq (i : nat) (d : str) (m : list (str * pv)) : elem := mkE i false d [] m.
+Definition Ft (i : nat) (locs : list (Z * Z)) (m : list (str * pv)) : elem := mkE i true [] locs m false.
+Definition Fm (i : nat) (locs : list (Z * Z)) (m : list (str * pv)) : elem := mkE i true [] locs m true.
+Definition Sq (i : nat) (d : str) (m : list (str * pv)) : elem := mkE i false d [] m false.
 
 Fixpoint assoc {V} (k : str) (m : list (str * V)) : option V :=
   match m with
@@ -106,7 +108,7 @@ Fixpoint locs_eqb (a b : list (Z * Z)) : bool :=
 (* Feature.__eq__ fts.py:358-363 (type is part of meta); BioSeq.__eq__ seq.py:250-253 *)
 Definition elem_eqb (x y : elem) : bool :=
   Bool.eqb (efeat x) (efeat y) && str_eqb (edata x) (edata y) && locs_eqb (elocs x) (elocs y)
-  && meta_eqb (emeta x) (emeta y).
+  && meta_eqb (emeta x) (emeta y) && Bool.eqb (eminus x) (eminus y).      (* Location.__eq__ compares the strand, fts.py:96-104 *)
 (* x in l  (list.__contains__ : identity or ==) *)
 Definition mem (x : elem) (l : list elem) : bool := existsb (elem_eqb x) l.
 
@@ -406,6 +408,12 @@ Fixpoint nodup_keys {V} (m : list (str * V)) : bool :=
   | (k, _) :: r => match assoc k r with Some _ => false | None => nodup_keys r end
   end.
 Definition loc_ok (l : Z * Z) : bool := Z.ltb (fst l) (snd l).
+(* '-' strand: LocationTuple.__new__ stores the locations by descending stop (fts.py:190-191) *)
+Fixpoint locs_sorted_minus (l : list (Z * Z)) : bool :=
+  match l with
+  | a :: ((b :: _) as r) => Z.leb (snd b) (snd a) && locs_sorted_minus r
+  | _ => true
+  end.
 Fixpoint locs_sorted (l : list (Z * Z)) : bool :=
   match l with
   | a :: ((b :: _) as r) => Z.leb (fst a) (fst b) && locs_sorted r
@@ -415,9 +423,11 @@ Fixpoint locs_sorted (l : list (Z * Z)) : bool :=
    start order (LocationTuple.__new__ sorts them, C08), no residue data; a sequence has an id entry and no locations *)
 Definition elem_ok (feat : bool) (x : elem) : bool :=
   Bool.eqb (efeat x) feat && nodup_keys (emeta x) && forallb (fun kvp => key_name_ok (fst kvp)) (emeta x) &&
-  (if feat then match elocs x with [] => false | _ => true end && forallb loc_ok (elocs x) && locs_sorted (elocs x)
+  (if feat then match elocs x with [] => false | _ => true end && forallb loc_ok (elocs x)
+                && (if eminus x then locs_sorted_minus (elocs x) else locs_sorted (elocs x))
                 && match edata x with [] => true | _ => false end
-   else match elocs x with [] => true | _ => false end && match assoc k_id (emeta x) with Some _ => true | None => false end).
+   else match elocs x with [] => true | _ => false end && negb (eminus x)
+        && match assoc k_id (emeta x) with Some _ => true | None => false end).
 Definition kind_of (l : list elem) : bool := match l with x :: _ => efeat x | [] => true end.
 Definition elems_ok (l : list elem) : bool := forallb (elem_ok (kind_of l)) l.
 Definition key_ok (k : key) : bool := match k with KMeta s => key_name_ok s | _ => true end.
@@ -500,7 +510,8 @@ Inductive hstep :=
 | HSetop (code : N) (b : list elem)         (* codes 4-7: b is the plain-list LEFT operand, the collection the right one *)
 | HReverse                                   (* cur.data.reverse() *)
 | HSetItem (j i : nat)                       (* cur.data[j] = cur.data[i] : the same object twice in the collection *)
-| HSetMeta (j : nat) (k : str) (v : pv).     (* cur.data[j].meta[k] = v *)
+| HSetMeta (j : nat) (k : str) (v : pv)
+| HTouch.                                    (* read-only use of the collection: str(), reading location metadata *)     (* cur.data[j].meta[k] = v *)
 Definition step_req (s : hstep) (cur : list elem) : option req :=
   match s with
   | HFilter inplace conds => Some (RFilter inplace cur conds)
@@ -523,7 +534,7 @@ Fixpoint meta_set (k : str) (v : pv) (m : list (str * pv)) : list (str * pv) :=
   | [] => [(k, v)]
   | (a, w) :: r => if str_eqb a k then (a, v) :: r else (a, w) :: meta_set k v r
   end.
-Definition with_meta (x : elem) (m : list (str * pv)) : elem := mkE (eidx x) (efeat x) (edata x) (elocs x) m.
+Definition with_meta (x : elem) (m : list (str * pv)) : elem := mkE (eidx x) (efeat x) (edata x) (elocs x) m (eminus x).
 (* an edit of one object is seen through every position holding that object (same eidx) *)
 Definition edit_meta (i : nat) (k : str) (v : pv) (l : list elem) : list elem :=
   map (fun x => if Nat.eqb (eidx x) i then with_meta x (meta_set k v (emeta x)) else x) l.
